@@ -102,6 +102,10 @@ pub fn corruptions(format: &str) -> Vec<Corruption> {
     out.push(Corruption { doc: Doc::new(format!("{format}:symbol-utf8-2"), mk(b"i0 ok\no0 \xc3(x\n")), line: lines_before + 2, col_first: 4, col_last: 5, what: "invalid UTF-8 sequence inside a symbol name".into() });
     out.push(Corruption { doc: Doc::new(format!("{format}:comment-utf8"), mk(b"c\nfirst\nse\xffcond\n")), line: lines_before + 3, col_first: 3, col_last: 3, what: "invalid UTF-8 byte inside the comment".into() });
     out.push(Corruption { doc: Doc::new(format!("{format}:symbol-kind"), mk(b"i0 a\nq0 name\n")), line: lines_before + 2, col_first: 1, col_last: 1, what: "unknown symbol kind".into() });
+    if format == "aag" {
+        out.push(Corruption { doc: Doc::new("aag:latch-initialization", b"aag 3 1 1 0 0\n2\n4 2 6\n".to_vec()), line: 3, col_first: 5, col_last: 5, what: "latch initialization literal that is neither 0, 1 nor the latch itself".into() });
+        out.push(Corruption { doc: Doc::new("aag:latch-initialization-second", b"aag 3 1 2 0 0\n2\n4 2 1\n6 4 3\n".to_vec()), line: 4, col_first: 5, col_last: 5, what: "second latch with an invalid initialization literal".into() });
+    }
     if format == "aig" {
         // line feeds inside the and-gate section are line ends like any other: errors behind them
         out.push(Corruption { doc: Doc::new("aig:lf-delta-then-symbol", b"aig 5 4 0 0 1\n\x0a\x00i0 x\ni9 y\n".to_vec()), line: 4, col_first: 2, col_last: 2, what: "symbol index out of range after a gate whose first delta is the byte 0x0a".into() });
@@ -113,6 +117,8 @@ pub fn corruptions(format: &str) -> Vec<Corruption> {
         out.push(Corruption { doc: Doc::new("aig:lf-in-two-byte-delta-then-symbol", b"aig 700 699 0 0 1\n\x80\x0a\x02i0 x\ni999 y\n".to_vec()), line: 4, col_first: 2, col_last: 4, what: "symbol index out of range after a gate whose first delta is encoded as 0x80 0x0a".into() });
         out.push(Corruption { doc: Doc::new("aig:lf-in-two-byte-second-delta", b"aig 1400 1399 0 0 1\n\x02\x80\x0aq\n".to_vec()), line: 3, col_first: 1, col_last: 1, what: "garbage behind a gate whose second delta is encoded as 0x80 0x0a".into() });
         out.push(Corruption { doc: Doc::new("aig:lf-in-three-byte-delta-then-bad-delta", b"aig 90000 89998 0 0 2\n\x80\x80\x0a\x02\xff\xff\x7f\x00".to_vec()), line: 3, col_first: 2, col_last: 4, what: "second gate's delta too large, after a gate with a delta encoded as 0x80 0x80 0x0a".into() });
+        out.push(Corruption { doc: Doc::new("aig:latch-initialization", b"aig 3 1 1 0 0\n2 6\n".to_vec()), line: 2, col_first: 3, col_last: 3, what: "latch initialization literal that is neither 0, 1 nor the latch itself".into() });
+        out.push(Corruption { doc: Doc::new("aig:latch-initialization-second", b"aig 3 1 2 0 0\n2 1\n4 3\n".to_vec()), line: 3, col_first: 3, col_last: 3, what: "second latch with an invalid initialization literal".into() });
         out.push(Corruption { doc: Doc::new("aig:delta-too-large", b"aig 3 2 0 1 1\n6\n\x08\x02".to_vec()), line: 3, col_first: 1, col_last: 1, what: "first delta larger than the gate's own code".into() });
         out.push(Corruption { doc: Doc::new("aig:delta2-too-large", b"aig 3 2 0 1 1\n6\n\x02\x06".to_vec()), line: 3, col_first: 2, col_last: 2, what: "second delta larger than the first input code".into() });
         out.push(Corruption { doc: Doc::new("aig:overlong-varint", b"aig 3 2 0 1 1\n6\n\x02\x80\x80\x80\x80\x80\x80\x80\x80\x80\x80\x80\x00".to_vec()), line: 3, col_first: 2, col_last: 13, what: "over-long 7-bit code".into() });
